@@ -74,6 +74,8 @@ C = [
   [("pkg/core/storage/memcached_store.go", "cmp.Compare(key[lPrefix:], sStart) <= 0)", "cmp.Compare(key[lPrefix:], sStart) >= 0)")]),
  ("C09-leveldb-backward-steps-next", "C09", "seek-orientation", "LevelDB backward scan steps with Next",
   [("pkg/core/storage/leveldb_store.go", "\t\tnext = iter.Prev", "\t\tnext = iter.Next")]),
+ ("C01-whitelist-fee-reset-skips-cache", "C01", "cache-pairing", "re-setting a whitelisted method's fee stores the record but skips the cache (the repaired defect)",
+  [("pkg/core/native/policy.go", "\t} else {\n\t\tcache.whitelistedContracts[i] = c\n\t}\n", "\t}\n")]),
 ]
 
 root = "/verif/controls"
